@@ -220,7 +220,7 @@ def _exec_one(plan, fail, missing, kill_at, root, res, sigctx, twin=False):
                 runner_mod.run = saved_run
             twin_info["rc"] = p2.returncode
             twin_info["cwds"] = sorted({r2["cwd"] for r2 in fe2.log})
-            twin_info["stderr"] = p2.stderr[-300:]
+            twin_info["stderr"] = (p2.stderr or "").replace(root, "<root>").replace(env.SANDBOX, "<sandbox>")[-300:]
 
         fe.hook = hook
     if twin == "rename":
@@ -268,6 +268,13 @@ def _exec_one(plan, fail, missing, kill_at, root, res, sigctx, twin=False):
                 raise HarnessError("SimSpawn did not restore the cwd")
     finally:
         os.environ["PATH"] = old_path
+    # (paths of the per-process sandbox are taken out of everything that may end up in a detail string BEFORE anything is
+    #  cut to length: a window of "the last 200 characters" must not depend on how many digits a pid has)
+    def _clean(t_):
+        return (t_ or "").replace(root, "<root>").replace(env.SANDBOX, "<sandbox>")
+    proc.stderr, proc.stdout = _clean(proc.stderr), _clean(proc.stdout)
+    if "stderr" in twin_info:
+        twin_info["stderr"] = _clean(twin_info["stderr"])
     res.evals += 1
     def viol(clause, detail):
         res.violate(clause, f"C17|{clause}|{sigctx}", f"{detail} [jid={plan['jid']} commands={cmds} fail={fail} missing={sorted(missing)} kill_at={kill_at} "
